@@ -361,6 +361,8 @@ def scenarios(tier):
                                                                      ['delete_parent'], ['create_parent'], ['create', M0]]}),
     ('a consumer keeps a partly consumed iterator over the server set',
      {'initial': [M0, M1], 'script': [['iter1'], ['create', M2], ['delete', M0], ['create', M0], ['delete', M1]]}),
+    ('a member goes away and comes back under the same name (it may vanish before it was read, and be back before the next listing)',
+     {'script': [['create', M1], ['create', M0], ['delete', M0], ['create', M0], ['delete', M1]]}),
     ('second reader lists members concurrently', {'initial': [M0], 'script': [['read'], ['create', M1], ['delete', M0], ['read'], ['create', M0]]}),
   ]
   if tier == 'thorough':
